@@ -40,4 +40,4 @@ def run(r):
     r.assumptions = ["token counts and their sums stay below usize::MAX (counts are N in the model)",
                      "chunk_with_graph is called with ElementGraph::build of the same element slice",
                      "a TokenCounter is a pure function of its text; when it declares is_additive_over_whitespace_join it is additive (hypothesis of chunk_budget)"]
-    return standard(r, "c14", ["theories/C14/Proofs.vo"], ["theories/C14/Model.vo"], ["chunks"], classify=classify, pre=corpus)
+    return standard(r, "c14", ["theories/C14/Proofs.vo", "theories/C14/Full.vo"], ["theories/C14/Model.vo"], ["chunks"], classify=classify, pre=corpus)
